@@ -19,7 +19,7 @@ CONSTANTS Sets, Gs, Reps
 Formats == {"par", "par2"}
 Perms == {"given", "reversed", "rotated"}
 Cwds == {"setdir", "parent", "unrelated"}
-Spells == {"rel", "abs", "dotslash", "dblsep", "dotdot"}
+Spells == {"rel", "abs", "dotslash", "dblsep", "dotdot", "absdot", "absdblsep", "absdotdot"}
 Vias == {"lib", "cli"}
 Kernels == {"ssse3", "scalar"}
 
@@ -27,7 +27,7 @@ VARIABLE cfg
 Init == cfg = [kind |-> "root"]
 Next == /\ cfg.kind = "root"
         /\ \E f \in Formats, s \in Sets, p \in Perms, g \in Gs, w \in Cwds, sp \in Spells, v \in Vias, k \in Kernels, r \in 1 .. Reps :
-              /\ ~(w = "unrelated" /\ sp # "abs")
+              /\ ~(w = "unrelated" /\ sp \notin {"abs", "absdot", "absdblsep", "absdotdot"})
               /\ ~(v = "cli" /\ k = "scalar")                  \* the binary uses the CPU's dispatch
               /\ ~(r > 1 /\ (p # "given" \/ sp # "rel"))        \* repetition: the plain configuration only
               /\ cfg' = [kind |-> "cfg", format |-> f, set |-> s, perm |-> p, g |-> g, cwd |-> w, spell |-> sp, via |-> v, kernel |-> k, rep |-> r]
